@@ -2,6 +2,8 @@ package mpckks
 
 import (
 	"math"
+	"math/big"
+	"math/bits"
 
 	"github.com/tuneinsight/lattigo/v6/core/rlwe"
 )
@@ -16,18 +18,23 @@ import (
 func GetMinimumLevelForRefresh(lambda int, scale rlwe.Scale, nParties int, moduli []uint64) (minLevel int, logBound uint, ok bool) {
 	/* #nosec G115 -- log2 of float value is taken before conversion to uint*/
 	logBound = uint(lambda + int(math.Ceil(math.Log2(scale.Float64()))))
-	maxBound := math.Ceil(float64(logBound) + math.Log2(float64(nParties)))
+	// The comparison sum(log2(qi)) >= ceil(logBound + log2(nParties)) is carried out on integers: Q_level >= 2^maxBound,
+	// with maxBound = logBound + ceil(log2(nParties)) (floating-point logarithms cannot separate a modulus from a
+	// power of two closer than 2^-53, e.g. Q = {2^61-31}).
+	/* #nosec G115 -- nParties is positive */
+	maxBound := logBound + uint(bits.Len64(uint64(nParties-1)))
+	bound := new(big.Int).Lsh(big.NewInt(1), maxBound)
 
 	minLevel = -1
-	logQ := 0.0
+	Q := big.NewInt(1)
 
-	for i := 0; logQ < maxBound; i++ {
+	for i := 0; Q.Cmp(bound) < 0; i++ {
 
 		if i >= len(moduli) {
 			return 0, 0, false
 		}
 
-		logQ += math.Log2(float64(moduli[i]))
+		Q.Mul(Q, new(big.Int).SetUint64(moduli[i]))
 		minLevel++
 	}
 
